@@ -828,3 +828,515 @@ Definition red_vecB (r : red) (b : bits) (keep : bool) : outcome :=
   | RMin => num (if negb (Nat.eqb n 0) then Ok (b2q (Nat.leb (length b) n))
                  else if len0 b then Err EValue else Ok 0)
   end.
+
+(* ------------------------------------------------------------------ SparseArray reductions *)
+Definition vsize {A} (rows : list (list A)) : nat := match rows with r :: _ => length r | [] => 0 end.
+(* column k of the rows (rows of a SparseArray have the same size) *)
+Definition column {A} (d : A) (rows : list (list A)) (k : nat) : list A := map (fun r => nth k r d) rows.
+Definition columns {A} (d : A) (rows : list (list A)) : list (list A) :=
+  map (column d rows) (seq 0 (vsize rows)).
+Definition res_all {A} (l : list (res A)) : res (list A) := mapM (fun x => x) l.
+Definition qmax_list (l : list Q) : Q := match l with x :: t => qmaxl x t | [] => 0 end.
+Definition qmin_list (l : list Q) : Q := match l with x :: t => qminl x t | [] => 0 end.
+
+Definition red_arrF (r : red) (rows : list cells) (axis : option nat) (keep : bool) : outcome :=
+  let nrows := length rows in
+  let cols := columns None rows in
+  let lg1 (x : bool) := if keep then RNew (OB [[x]]) else RBool x in
+  let lgv (v : bits) := if keep then RNew (OB [v]) else RNew (OL v) in
+  let lgc (v : bits) := if keep then RNew (OB (map (fun x => [x]) v)) else RNew (OL v) in
+  let nmv (v : cells) := if keep then RNew (OA [v] false) else RNew (OV v false) in
+  let nmc (v : list Q) := if keep then RNew (OA (map (fun x => [nz x]) v) false) else RNew (OV (map nz v) false) in
+  match axis with
+  | None =>
+      match r with
+      | RAny => lg1 (existsb sv_any rows)
+      | RAll => lg1 (forallb sv_all rows)
+      | RSum => let x := qsum (map sv_sum rows) in
+                if keep then RNew (OA [[nz x]] false) else RScal x
+      | RMean => let n := qsum (map (fun c => qofnat (length c)) rows) in
+                 if qzerob n then RErr EZeroDiv
+                 else let x := qsum (map sv_sum rows) / n in
+                      if keep then RNew (OA [[nz x]] false) else RScal x
+      | RMax => match res_all (map sv_max rows) with
+                | Err e => RErr e
+                | Ok [] => RErr EValue
+                | Ok l => let x := qmax_list l in
+                          if keep then RNew (OA [[Some x]] false) else RScal x    (* {0: arr}: no zero test *)
+                end
+      | RMin => match res_all (map sv_min rows) with
+                | Err e => RErr e
+                | Ok [] => RErr EValue
+                | Ok l => let x := qmin_list l in
+                          if keep then RNew (OA [[Some x]] false) else RScal x
+                end
+      end
+  | Some O =>
+      match r with
+      | RAny => lgv (map (existsb present) cols)
+      | RAll => lgv (match rows with [] => [] | _ => map (forallb present) cols end)
+      | RSum => nmv (map (fun c => nz (qsum (map dcell c))) cols)
+      | RMean => match truediv_scalar (map (fun c => nz (qsum (map dcell c))) cols) (qofnat nrows) with
+                 | Ok v => nmv v | Err e => RErr e end
+      | RMax => nmv (map (fun c => nz (qmax_list (map dcell c))) cols)
+      | RMin => nmv (map (fun c => nz (qmin_list (map dcell c))) cols)
+      end
+  | Some 1%nat =>
+      match r with
+      | RAny => lgc (map sv_any rows)
+      | RAll => lgc (map sv_all rows)
+      | RSum => nmc (map sv_sum rows)
+      | RMean => nmc (map (fun c => let x := sv_sum c in if qzerob x then 0 else x / qofnat (length c)) rows)
+      | RMax => match res_all (map sv_max rows) with Ok l => nmc l | Err e => RErr e end
+      | RMin => match res_all (map sv_min rows) with Ok l => nmc l | Err e => RErr e end
+      end
+  | _ => RErr EValue
+  end.
+
+Definition red_arrB (r : red) (rows : list bits) (axis : option nat) (keep : bool) : outcome :=
+  let cols := columns false rows in
+  let lg1 (x : bool) := if keep then RNew (OB [[x]]) else RBool x in
+  let lgv (v : bits) := if keep then RNew (OB [v]) else RNew (OL v) in
+  let lgc (v : bits) := if keep then RNew (OB (map (fun x => [x]) v)) else RNew (OL v) in
+  let anyb (b : bits) := negb (Nat.eqb (nset b) 0) in
+  let allb (b : bits) := Nat.eqb (nset b) (length b) in
+  match r, axis with
+  | RAny, None => lg1 (existsb anyb rows)
+  | RAll, None => lg1 (forallb allb rows)
+  | RAny, Some O => lgv (map (existsb (fun x : bool => x)) cols)
+  | RAll, Some O => lgv (match rows with [] => [] | _ => map (forallb (fun x : bool => x)) cols end)
+  | RAny, Some 1%nat => lgc (map anyb rows)
+  | RAll, Some 1%nat => lgc (map allb rows)
+  | RAny, _ | RAll, _ => RErr EValue
+  | _, _ => RErr EOther         (* numeric reductions of boolean arrays: not modelled *)
+  end.
+
+(* ------------------------------------------------------------------ SparseArray indexing *)
+Inductive aindex :=
+| XRow (m : index)                   (* a[m] with m int / list / mask / slice / open *)
+| XPair (m : index) (n : index).     (* a[m, n] *)
+Definition row_sel (nrows : nat) (m : index) : list nat := index_list nrows m.
+Definition is_int (ix : index) : bool := match ix with IInt _ | ITup _ => true | _ => false end.
+Definition is_open (ix : index) : bool := match ix with IOpen => true | _ => false end.
+Definition is_slice (ix : index) : bool := match ix with IOpen | ISlice _ _ _ => true | _ => false end.
+Definition int_of (ix : index) : nat := match ix with IInt k | ITup k => k | _ => O end.
+Fixpoint nth_rows {A} (rows : list A) (sel : list nat) : res (list A) :=
+  match sel with
+  | [] => Ok []
+  | i :: t => match nth_error rows i with
+              | Some r => do l <- nth_rows rows t; Ok (r :: l)
+              | None => Err EIndex                       (* rows[i]: list index out of range *)
+              end
+  end.
+
+Inductive aget :=                (* result of SparseArray.__getitem__ *)
+| GSelf | GRow (i : nat) | GRows (sel : list nat)            (* the array / one row object / an array sharing rows *)
+| GScalF (q : Q) | GDenseF (l : list Q) | GDense2F (m : list (list Q))
+| GErr (e : err).
+Definition arrF_get (rows : list cells) (ax : aindex) : aget :=
+  let nrows := length rows in
+  match ax with
+  | XRow m =>
+      if is_open m then GSelf
+      else if is_int m then (if Nat.ltb (int_of m) nrows then GRow (int_of m) else GErr EIndex)
+      else match nth_rows rows (row_sel nrows m) with Ok _ => GRows (row_sel nrows m) | Err e => GErr e end
+  | XPair m n =>
+      if is_slice m then
+        if is_open m && is_open n then GSelf
+        else match nth_rows rows (row_sel nrows m) with
+             | Err e => GErr e
+             | Ok sel =>
+                 if is_int n then GDenseF (map (fun r => getc r (int_of n)) sel)      (* np.array([i[n] for i in rows]) *)
+                 else GDense2F (map (fun r => map (getc r) (index_list (length r) n)) sel)
+             end
+      else if is_slice n then
+        if is_int m then
+          (if Nat.ltb (int_of m) nrows
+           then (if is_open n then GRow (int_of m)
+                 else GDenseF (map (getc (nth (int_of m) rows [])) (index_list (vsize rows) n)))
+           else GErr EIndex)
+        else match nth_rows rows (row_sel nrows m) with
+             | Err e => GErr e
+             | Ok sel => if is_open n then GRows (row_sel nrows m)
+                         else GDense2F (map (fun r => map (getc r) (index_list (length r) n)) sel)
+             end
+      else if is_int m then
+        (if Nat.ltb (int_of m) nrows
+         then (if is_int n then GScalF (getc (nth (int_of m) rows []) (int_of n))
+               else GDenseF (map (getc (nth (int_of m) rows [])) (index_list (vsize rows) n)))
+         else GErr EIndex)
+      else match nth_rows rows (row_sel nrows m) with
+           | Err e => GErr e
+           | Ok sel => if is_int n then GDenseF (map (fun r => getc r (int_of n)) sel)
+                       else GDenseF (map2 getc sel (index_list (vsize rows) n))       (* zip(m, n) *)
+           end
+  end.
+
+(* apply f to the rows selected by sel, in order (a row selected twice is written twice); an exception
+   leaves the rows written so far modified: the result is (rows, raised exception) *)
+Fixpoint upd_rows {A} (f : A -> res A) (rows : list A) (sel : list nat) : list A * option err :=
+  match sel with
+  | [] => (rows, None)
+  | i :: t => match nth_error rows i with
+              | None => (rows, Some EIndex)
+              | Some r => match f r with
+                          | Err e => (rows, Some e)
+                          | Ok r' => upd_rows f (upd rows i r') t
+                          end
+              end
+  end.
+Fixpoint upd_rows2 {A B} (f : A -> B -> res A) (rows : list A) (sel : list nat) (vals : list B) : list A * option err :=
+  match sel, vals with
+  | i :: t, v :: vt => match nth_error rows i with
+                       | None => (rows, Some EIndex)
+                       | Some r => match f r v with
+                                   | Err e => (rows, Some e)
+                                   | Ok r' => upd_rows2 f (upd rows i r') t vt
+                                   end
+                       end
+  | _, _ => (rows, None)
+  end.
+(* direct dictionary writes of a[[m...], [n...]] = value: no read_only test *)
+Definition dset (c : cells) (j : nat) (q : Q) : res cells := set1 c j q.
+
+Definition arrF_set (rows : list cells) (ro : bool) (ax : aindex) (p : operand) : list cells * option err :=
+  let nrows := length rows in
+  let vs := vsize rows in
+  let nope : list cells * option err := (rows, Some EOther) in
+  let rowset (n : index) (c : cells) (v : operand) : res cells :=       (* row[n] = v through SparseVector.__setitem__ *)
+    if ro then Err EValue else vecF_set c n v in
+  let bcast (sel : list nat) (n : index) : list cells * option err :=
+    match p with
+    | PArr2 m isb => upd_rows2 (fun c v => rowset n c (reduce1 v isb)) rows sel m
+    | PA m => upd_rows2 (fun c v => rowset n c (PV v)) rows sel m
+    | PB _ => nope
+    | _ => upd_rows (fun c => rowset n c p) rows sel
+    end in
+  match ax with
+  | XRow m =>
+      if is_int m then upd_rows (fun c => rowset IOpen c p) rows [int_of m]
+      else match m with
+           | IMask mk =>                       (* vd == 0: value ; else value[i] with i the row number *)
+               match p with
+               | PS _ _ => upd_rows (fun c => rowset IOpen c p) rows (mask_idx mk)
+               | PArr l isb => upd_rows2 (fun c x => rowset IOpen c (PS x isb)) rows (mask_idx mk)
+                                         (map (fun i => nth i l 0) (mask_idx mk))
+               | PArr2 v isb => upd_rows2 (fun c x => rowset IOpen c (reduce1 x isb)) rows (mask_idx mk)
+                                          (map (fun i => nth i v []) (mask_idx mk))
+               | _ => nope
+               end
+           | _ => bcast (row_sel nrows m) IOpen
+           end
+  | XPair m n =>
+      if is_slice m then
+        if is_slice n then
+          (if negb (is_open m) && is_open n
+           then upd_rows (fun c => rowset IOpen c p) rows (row_sel nrows m)     (* for i in rows: i[:] = value, whatever vd *)
+           else bcast (row_sel nrows m) n)
+        else match p with
+             | PS _ _ => upd_rows (fun c => rowset n c p) rows (row_sel nrows m)
+             | PArr l isb =>
+                 if is_int n then upd_rows2 (fun c v => rowset n c (PS v isb)) rows (row_sel nrows m) l
+                 else upd_rows (fun c => rowset n c p) rows (row_sel nrows m)
+             | PArr2 v isb => upd_rows2 (fun c x => rowset n c (reduce1 x isb)) rows (row_sel nrows m) v
+             | _ => nope
+             end
+      else if is_int m then upd_rows (fun c => rowset n c p) rows [int_of m]
+      else if is_slice n then
+        match p with
+        | PArr2 v isb => upd_rows2 (fun c x => rowset n c (reduce1 x isb)) rows (row_sel nrows m) v
+        | PA _ | PB _ => nope
+        | _ => upd_rows (fun c => rowset n c p) rows (row_sel nrows m)
+        end
+      else
+        let ms := row_sel nrows m in
+        if is_int n then
+          match p with
+          | PS q _ => upd_rows (fun c => dset c (int_of n) q) rows ms
+          | PArr l _ => upd_rows2 (fun c k => dset c (int_of n) k) rows ms l
+          | _ => (rows, Some EIndex)
+          end
+        else
+          let ns := index_list vs n in
+          match p with
+          | PS q _ => upd_rows2 (fun c j => dset c j q) rows ms ns
+          | PArr l _ => upd_rows2 (fun c jk => dset c (fst jk) (snd jk)) rows ms (combine ns l)
+          | _ => (rows, Some EIndex)
+          end
+  end.
+
+(* self[index] = self with a 1-d index: zip(index, self) reads the values while they are being written *)
+Fixpoint set_zip_lazy (a : cells) (idx : list nat) (k : nat) : res cells :=
+  match idx with
+  | [] => Ok a
+  | i :: t => if Nat.ltb k (length a) then (do a' <- set1 a i (getc a k); set_zip_lazy a' t (S k)) else Ok a
+  end.
+Fixpoint setb_zip_lazy (a : bits) (idx : list nat) (k : nat) : res bits :=
+  match idx with
+  | [] => Ok a
+  | i :: t => if Nat.ltb k (length a) then (do a' <- setb1 a i (getb a k); setb_zip_lazy a' t (S k)) else Ok a
+  end.
+
+(* ------------------------------------------------------------------ one operation on the store *)
+Definition dense_bits (b : bits) : list Q := map b2q b.
+Definition set_obj (s : store) (i : nat) (o : obj) : store := upd s i o.
+Definition vec_of_obj (o : obj) : option vec :=
+  match o with OV c _ => Some (VF c) | OL b => Some (VB b) | _ => None end.
+Definition is_ro (o : obj) : bool := match o with OV _ r => r | _ => false end.
+Definition with_vec (o : obj) (v : vec) : res obj :=
+  match o, v with
+  | OV _ r, VF c => Ok (OV c r)
+  | OL _, VB b => Ok (OL b)
+  | _, _ => unsupported
+  end.
+Definition with_rows (o : obj) (l : list vec) : res obj :=
+  match o with
+  | OA _ r => match all_F l with Some x => Ok (OA x r) | None => unsupported end
+  | OB _ => match all_B l with Some x => Ok (OB x) | None => unsupported end
+  | _ => unsupported
+  end.
+Definition alias_of (a : arg) (i : nat) : bool := match a with AObj j => Nat.eqb i j | _ => false end.
+
+Definition step_res (lg : bool) (s : store) (o : op) : res (store * outcome) :=
+  match o with
+  | OBin b i a =>
+      do x <- getobj s i; do p <- resolve s a;
+      do r <- match vec_of_obj x with
+              | Some v => vector_bin lg b v p
+              | None => array_bin lg b (rows_of x) p
+              end;
+      Ok (s ++ [r], RNew r)
+  | OIBin b i a =>
+      do x <- getobj s i; do p <- resolve s a;
+      match vec_of_obj x with
+      | Some v =>
+          if is_ro x then Err EValue
+          else match v, b with VB _, BA Sub => Err EType | _, _ =>          (* SparseLogicalVector.__isub__ raises TypeError *)
+               match p with
+               | PA [r] => do v' <- vec_ibin lg b false v (PV r); do x' <- with_vec x v'; Ok (set_obj s i x', RUnit)
+               | PB [r] => do v' <- vec_ibin lg b false v (PL r); do x' <- with_vec x v'; Ok (set_obj s i x', RUnit)
+               | PA _ | PB _ => Err EValue
+               | PArr2 _ _ => unsupported
+               | _ => do v' <- vec_ibin lg b (alias_of a i) v p; do x' <- with_vec x v'; Ok (set_obj s i x', RUnit)
+               end end
+      | None => do l <- array_ibin lg b (alias_of a i) (rows_of x) p; do x' <- with_rows x l; Ok (set_obj s i x', RUnit)
+      end
+  | ORBin a k i =>
+      do x <- getobj s i;
+      let one (v : vec) : res vec :=
+        match a, v with
+        | Add, _ => vec_bin lg (BA Add) v (PS k false)
+        | Mul, _ => vec_bin lg (BA Mul) v (PS k false)
+        | Sub, VF c => okF (rsub_scalar c k)
+        | Sub, VB b => okF (add_scalar (map (fun x : bool => if x then Some (-(1)) else None) b) k)
+        | Div, VF c => okF (rtruediv_scalar c k)
+        | Div, VB b => okF (do l <- mapM (fun x : bool => qdiv k (b2q x)) b; Ok (map nz l))  (* SparseVector(k / to_array()) *)
+        end in
+      do l <- mapM one (rows_of x);
+      do r <- match vec_of_obj x, l with
+              | Some _, [v] => Ok (obj_of_vec v)
+              | Some _, _ => unsupported
+              | None, _ => obj_of_rows l
+              end;
+      Ok (s ++ [r], RNew r)
+  | ONeg i =>
+      do x <- getobj s i;
+      let r := match x with
+               | OV c _ => OV (neg_cells c) false
+               | OL b => OV (map (fun x : bool => if x then Some (-(1)) else None) b) false
+               | OA rows _ => OA (map neg_cells rows) false
+               | OB rows => OA (map (map (fun x : bool => if x then Some (-(1)) else None)) rows) false
+               end in
+      Ok (s ++ [r], RNew r)
+  | OAbs i =>
+      do x <- getobj s i;
+      let r := match x with
+               | OV c _ => OV (abs_cells c) false
+               | OL b => OL b
+               | OA rows _ => OA (map abs_cells rows) false
+               | OB rows => OB rows
+               end in
+      Ok (s ++ [r], RNew r)
+  | OInvert i =>
+      do x <- getobj s i;
+      match x with
+      | OL b => let r := OL (lv_invert b) in Ok (s ++ [r], RNew r)
+      | OB rows => let r := OB (map lv_invert rows) in Ok (s ++ [r], RNew r)
+      | _ => Err EType
+      end
+  | OCopy i =>
+      do x <- getobj s i;
+      let r := match x with OV c _ => OV c false | OA rows _ => OA rows false | _ => x end in
+      Ok (s ++ [r], RNew r)
+  | OClear i =>
+      do x <- getobj s i;
+      match x with
+      | OV c ro => if ro then Err EValue else Ok (set_obj s i (OV (empty_cells (length c)) ro), RUnit)
+      | OA rows ro => Ok (set_obj s i (OA (map (fun c => empty_cells (length c)) rows) ro), RUnit)   (* i.set.clear(): no read_only test *)
+      | OB rows => Ok (set_obj s i (OB (map (fun c => falses (length c)) rows)), RUnit)
+      | OL _ => Err EType                          (* SparseLogicalVector has no clear() : AttributeError *)
+      end
+  | OSetRO i =>
+      do x <- getobj s i;
+      match x with
+      | OV c _ => Ok (set_obj s i (OV c true), RUnit)
+      | OA rows _ => Ok (set_obj s i (OA rows true), RUnit)
+      | _ => Err EType
+      end
+  | OToArray i =>
+      do x <- getobj s i;
+      Ok (s, match x with
+             | OV c _ => RDense (dense c) | OL b => RDenseB b
+             | OA rows _ => RDense2 (map dense rows) | OB rows => RDenseB2 rows end)
+  | OGet i ix =>
+      do x <- getobj s i;
+      match vec_of_obj x with
+      | Some v => Ok (s, vec_get v ix)
+      | None => unsupported
+      end
+  | OSet i ix a =>
+      do x <- getobj s i; do p <- resolve s a;
+      let vd2 := match p with PA _ | PB _ | PArr2 _ _ => true | _ => false end in
+      match x with
+      | OV c ro => if ro then Err EValue
+                   else if alias_of a i then
+                     (if is_open ix then Ok (s, RUnit)                            (* `if value is self: return` *)
+                      else if is_int ix then (if len1 c then (do c' <- vecF_set c ix p; Ok (set_obj s i (OV c' ro), RUnit))
+                                              else Err EIndex)
+                      else do c' <- set_zip_lazy c (index_list (length c) ix) 0; Ok (set_obj s i (OV c' ro), RUnit))
+                   else if is_open ix && vd2                                      (* dct.clear() precedes the IndexError *)
+                   then Ok (set_obj s i (OV (empty_cells (length c)) ro), RErr EIndex)
+                   else do c' <- vecF_set c ix p; Ok (set_obj s i (OV c' ro), RUnit)
+      | OL b => if alias_of a i then
+                  (if is_open ix then Ok (s, RUnit)
+                   else if is_int ix then (if len1 b then (do b' <- vecB_set b ix p; Ok (set_obj s i (OL b'), RUnit))
+                                           else Err EIndex)
+                   else do b' <- setb_zip_lazy b (index_list (length b) ix) 0; Ok (set_obj s i (OL b'), RUnit))
+                else if is_open ix && vd2
+                then Ok (set_obj s i (OL (falses (length b))), RErr EIndex)
+                else do b' <- vecB_set b ix p; Ok (set_obj s i (OL b'), RUnit)
+      | _ => unsupported
+      end
+  | ORed r i axis keep =>
+      do x <- getobj s i;
+      let out := match x with
+                 | OV c _ => match axis with None | Some O => red_vecF r c keep | _ => RErr EValue end
+                 | OL b => match axis with None | Some O => red_vecB r b keep | _ => RErr EValue end
+                 | OA rows _ => red_arrF r rows axis keep
+                 | OB rows => red_arrB r rows axis keep
+                 end in
+      match out with
+      | RErr e => Err e
+      | RNew n => Ok (s ++ [n], out)
+      | _ => Ok (s, out)
+      end
+  end.
+
+(* SparseArray indexing operations are separate constructors of the history *)
+Inductive xop :=
+| XOp (o : op)
+| XAGet (i : nat) (ax : aindex)
+| XASet (i : nat) (ax : aindex) (v : arg).
+
+Definition obj_eq_outcome (o : obj) : outcome := RNew o.
+Definition xstep_res (lg : bool) (s : store) (o : xop) : res (store * outcome) :=
+  match o with
+  | XOp o => step_res lg s o
+  | XAGet i ax =>
+      do x <- getobj s i;
+      match x with
+      | OA rows _ =>
+          match arrF_get rows ax with
+          | GSelf => Ok (s, RSelf)
+          | GRow k => Ok (s, RNew (OV (nth k rows []) false))          (* the row object itself: reported, not stored *)
+          | GRows sel => do l <- nth_rows rows sel; Ok (s, RNew (OA l false))
+          | GScalF q => Ok (s, RScal q)
+          | GDenseF l => Ok (s, RDense l)
+          | GDense2F m => Ok (s, RDense2 m)
+          | GErr e => Err e
+          end
+      | _ => unsupported
+      end
+  | XASet i ax a =>
+      do x <- getobj s i; do p <- resolve s a;
+      match x with
+      | OA rows ro => let (rows', e) := arrF_set rows ro ax p in
+                      Ok (set_obj s i (OA rows' ro), match e with None => RUnit | Some e => RErr e end)
+      | _ => unsupported
+      end
+  end.
+
+(* errors raised before anything was modified leave the store as it was; ZeroDivisionError,
+   FloatingPointError, RuntimeError and "left the representable states" end the history
+   (the implementation may have modified part of the target) *)
+Definition crash (e : err) : bool :=
+  match e with EZeroDiv | ERuntime | EOther => true | _ => false end.
+Definition xstep (lg : bool) (s : store) (o : xop) : store * outcome :=
+  match xstep_res lg s o with Ok r => r | Err e => (s, RErr e) end.
+Definition crashed (r : outcome) : bool := match r with RErr e => crash e | _ => false end.
+Fixpoint run (lg : bool) (s : store) (ops : list xop) : store * list outcome :=
+  match ops with
+  | [] => (s, [])
+  | o :: t => let (s', r) := xstep lg s o in
+              if crashed r then (s', [r])
+              else let (s'', rs) := run lg s' t in (s'', r :: rs)
+  end.
+
+(* ------------------------------------------------------------------ construction *)
+(* SparseVector(list) / SparseLogicalVector(list) / SparseArray(list of lists): `if j: dct[i] = float(j)` *)
+Definition mkV (l : list Q) (ro : bool) : obj := OV (of_dense l) ro.
+Definition mkL (l : bits) : obj := OL l.
+Definition mkA (m : list (list Q)) : obj := OA (map of_dense m) false.
+Definition mkB (m : list bits) : obj := OB m.
+
+(* ------------------------------------------------------------------ comparison with observations *)
+Definition cell_eqb (a b : cell) : bool :=
+  match a, b with None, None => true | Some x, Some y => qapproxb x y | _, _ => false end.
+Definition cells_eqb : cells -> cells -> bool := list_eqb cell_eqb.
+Definition bits_eqb : bits -> bits -> bool := list_eqb Bool.eqb.
+Definition obj_eqb (a b : obj) : bool :=
+  match a, b with
+  | OV c r, OV d r' => cells_eqb c d && Bool.eqb r r'
+  | OL x, OL y => bits_eqb x y
+  | OA x r, OA y r' => list_eqb cells_eqb x y && Bool.eqb r r'
+  | OB x, OB y => list_eqb bits_eqb x y
+  | _, _ => false
+  end.
+Definition outcome_eqb (a b : outcome) : bool :=
+  match a, b with
+  | RErr e, RErr f => err_eqb e f
+  | RNew x, RNew y => obj_eqb x y
+  | RUnit, RUnit | RSelf, RSelf => true
+  | RScal x, RScal y => qapproxb x y
+  | RBool x, RBool y => Bool.eqb x y
+  | RScal x, RBool y | RBool y, RScal x => qapproxb x (b2q y)
+  | RDense x, RDense y => vapproxb x y
+  | RDenseB x, RDenseB y => bits_eqb x y
+  | RDense x, RDenseB y | RDenseB y, RDense x => vapproxb x (map b2q y)
+  | RDense2 x, RDense2 y => list_eqb vapproxb x y
+  | RDense2 [], RDense [] | RDense [], RDense2 [] => true      (* np.array([]) of no rows is 1-d *)
+  | RDenseB2 x, RDenseB2 y => list_eqb bits_eqb x y
+  | RDense2 x, RDenseB2 y | RDenseB2 y, RDense2 x => list_eqb vapproxb x (map (map b2q) y)
+  | _, _ => false
+  end.
+Definition run_eqb (lg : bool) (s : store) (ops : list xop) (expect : store) (outs : list outcome) : bool :=
+  let (f, r) := run lg s ops in
+  list_eqb obj_eqb f expect && list_eqb outcome_eqb r outs.
+
+(* debugging aid for the harness: first operation whose outcome differs, with the model's outcome *)
+Fixpoint first_diff (k : nat) (a b : list outcome) : option (nat * option outcome * option outcome) :=
+  match a, b with
+  | [], [] => None
+  | x :: a', y :: b' => if outcome_eqb x y then first_diff (S k) a' b' else Some (k, Some x, Some y)
+  | x :: _, [] => Some (k, Some x, None)
+  | [], y :: _ => Some (k, None, Some y)
+  end.
+Fixpoint first_odiff (k : nat) (a b : store) : option (nat * option obj * option obj) :=
+  match a, b with
+  | [], [] => None
+  | x :: a', y :: b' => if obj_eqb x y then first_odiff (S k) a' b' else Some (k, Some x, Some y)
+  | x :: _, [] => Some (k, Some x, None)
+  | [], y :: _ => Some (k, None, Some y)
+  end.
+Definition run_diff (lg : bool) (s : store) (ops : list xop) (expect : store) (outs : list outcome) :=
+  let (f, r) := run lg s ops in (first_diff 0 r outs, first_odiff 0 f expect).
